@@ -362,6 +362,9 @@ def obligations(tier):
     if tier == "quick":
         combos = [
             # n, backups, batch, n_o, n_d, n_p
+            (0, False, None, 2, 3, 1),
+            (0, False, 2, 2, 3, 1),
+            (1, False, 1, 4, 6, 2),
             (2, False, None, 6, 8, 2),
             (3, False, None, 7, 8, 3),
             (3, False, 2, 7, 10, 3),
@@ -376,6 +379,11 @@ def obligations(tier):
         wall = 600
     else:
         combos = [
+            (0, False, None, 2, 3, 1),
+            (0, False, 2, 2, 3, 1),
+            (0, True, 1, 2, 3, 1),
+            (1, False, 1, 6, 8, 2),
+            (1, True, None, 6, 10, 2),
             (2, False, None, 8, 10, 3),
             (3, False, None, 10, 12, 4),
             (4, False, None, 10, 12, 5),
